@@ -246,6 +246,15 @@ def stepLine (s : St) (toks : List String) : St × List String :=
     else
       let (s', o) := if s.kt then stepEnterKt s else stepEnter s
       (s', [s!"{o} {showState s'}"])
+  | ["sq", "panicfill"] =>
+    -- Scenario line (not a move of the theorems' interleaving model): a call of `add` whose
+    -- `fill_submission` panics (a user `BufMut::parts_mut`), run to its end by the controller
+    -- thread while no submitter holds the lock and the queue has room: the slot `T mod len` was
+    -- reset, unwinding releases the lock, the tail is NOT stored — nothing is published.
+    if s.thr.isEmpty || s.lock.isSome || s.T - s.H ≥ s.len then (s, ["bad-op"])
+    else
+      let s' := { s with slots := s.slots.set (s.T % s.len) none }
+      (s', [s!"panicfill {showState s'}"])
   | ["sq", "again", i, e] =>
     match parseNat i, parseNat e with
     | some i, some e => let (s', o) := restart s i e; (s', [o])
